@@ -30,6 +30,15 @@ def vlog [HasLog α] (l : List α) : List α := l.map HasLog.log
 /-- `np.linalg.norm(v, 2)` of a vector -/
 def norm2 [Add α] [Mul α] [NatCast α] [HasSqrt α] (l : List α) : α := HasSqrt.sqrt (vsum (vsquare l))
 
+/-- inner product and squared norms of two vectors: what `cosine_similarity` is made of, without the square
+roots (so the driver can evaluate it at `Rat`) -/
+def cosineParts [Add α] [Mul α] [NatCast α] (a b : List α) : α × α × α :=
+  (vsum (vmul a b), vsum (vsquare a), vsum (vsquare b))
+
+/-- what `cosine_similarity` computed on the pinned tree: `-np.sum(norm(y_pred, 2) * norm(y_true, 2))`, minus the
+PRODUCT of the norms (kept to state why the repair exists) -/
+def pinnedCosine [Add α] [Mul α] [Neg α] [NatCast α] [HasSqrt α] (a b : List α) : α := -(norm2 a * norm2 b)
+
 end vec
 
 /-- `_Settings.scale`: with `guard` a spread that is not positive (constant column: 0; single value: NaN) is
@@ -112,5 +121,120 @@ def FitEnv.evalResidual {M P : Type} (update : M → P → M) (e : FitEnv M) (p 
 
 def FitEnv.run {M P : Type} (update : M → P → M) (e : FitEnv M) (ps : List P) : FitEnv M :=
   ps.foldl (FitEnv.evalResidual update) e
+
+/-! ### the fit drivers end to end: residual values that may be `np.inf`, a scripted minimiser, the model's values -/
+
+/-- a residual value: a number, or `np.inf` (what every `*_residual` returns when the simulation failed) -/
+inductive Ext where
+  | fin (x : Rat)
+  | inf
+deriving DecidableEq, Repr, Inhabited
+
+def Ext.le : Ext → Ext → Bool
+  | _, .inf => true
+  | .inf, .fin _ => false
+  | .fin x, .fin y => decide (x ≤ y)
+
+instance : LE Ext := ⟨fun a b => Ext.le a b = true⟩
+instance : DecidableLE Ext := fun a b => inferInstanceAs (Decidable (Ext.le a b = true))
+
+/-- float addition with `inf` absorbing -/
+def Ext.add : Ext → Ext → Ext
+  | .fin x, .fin y => .fin (x + y)
+  | _, _ => .inf
+instance : Add Ext := ⟨Ext.add⟩
+
+/-- `_sum_of_residuals` / `_mixed_sum_of_residuals`: `error = 0.0; for r in results: error += r` -/
+def sumResiduals (rs : List Ext) : Ext := rs.foldl (· + ·) (.fin 0)
+
+/-- the deterministic stand-in for an optimiser that the harness passes as `minimizer=`: it evaluates the objective at
+the start and then at every scripted candidate of the right dimension, in order, and reports the FIRST point with the
+least value (a candidate replaces the incumbent only when it is strictly better) -/
+def scriptedMinimise {α : Type} [LE α] [DecidableLE α] (cands : List (List α)) (g : List α → α) (x0 : List α) :
+    Option (List α × α) :=
+  some ((cands.filter fun c => c.length == x0.length).foldl
+    (fun best x => if best.2 ≤ g x then best else (x, g x)) (x0, g x0))
+
+/-- the points at which `scriptedMinimise` calls the objective, in order, as the residual function sees them -/
+def scriptedTrace {α : Type} (names : List String) (cands : List (List α)) (x0 : List α) : List (List (String × α)) :=
+  (x0 :: cands.filter fun c => c.length == x0.length).map (packUpdates names)
+
+/-- the numbers of a model that a fit can touch: parameter values and initial conditions, by name -/
+structure ModelVals (α : Type) where
+  pars : List (String × α)
+  vars : List (String × α)
+deriving Repr
+
+/-- assignment to an existing name (all entries of that name; names are unique in a model) -/
+def setVal {α : Type} (l : List (String × α)) (n : String) (v : α) : List (String × α) :=
+  l.map fun kv => if kv.1 == n then (kv.1, v) else kv
+
+def hasName {α : Type} (l : List (String × α)) (n : String) : Bool := l.any fun kv => kv.1 == n
+
+/-- `model.update_variables(y0)`: one `update_variable` per entry; `none` = the KeyError for a name that is no variable -/
+def updateVariables {α : Type} (m : ModelVals α) : List (String × α) → Option (ModelVals α)
+  | [] => some m
+  | (n, v) :: rest => if hasName m.vars n then updateVariables { m with vars := setVal m.vars n v } rest else none
+
+/-- `p_names` / `v_names` of `_Settings`: `[i for i in p0 if i in model.get_parameter_names()]` and the same with the
+variable names — a name of `p0` that is neither is in neither list -/
+def routeNames {α : Type} (m : ModelVals α) (p0names : List String) : List String × List String :=
+  (p0names.filter (hasName m.pars), p0names.filter (hasName m.vars))
+
+/-- `for p in names: model.update_parameter(p, updates[p])` (or `update_variable`) on one of the two value tables;
+`none` = the KeyError of `updates[p]` -/
+def setAll {α : Type} (updates : List (String × α)) (names : List String) (l : List (String × α)) :
+    Option (List (String × α)) :=
+  names.foldlM (fun l p => (updates.lookup p).map fun v => setVal l p v) l
+
+/-- the first lines of every `*_residual(updates, settings)`: `model.update_variables(y0)` if there is a `y0`, then
+`model.update_parameter(p, updates[p])` for `p_names`, then `model.update_variable(v, updates[v])` for `v_names`
+(`none` = a KeyError: unknown `y0` name, or `updates` lacks a fitted name) -/
+def applyUpdates {α : Type} (y0 : Option (List (String × α))) (pNames vNames : List String) (m : ModelVals α)
+    (updates : List (String × α)) : Option (ModelVals α) := do
+  let m ← match y0 with
+    | some y => updateVariables m y
+    | none => some m
+  let pars ← setAll updates pNames m.pars
+  let vars ← setAll updates vNames m.vars
+  some ⟨pars, vars⟩
+
+/-- what a fit driver leaves behind -/
+structure DriverOut (α : Type) where
+  fit : Option (Fit α)            -- `none` = FitFailure
+  caller : ModelVals α            -- the caller's model object afterwards
+  work : ModelVals α              -- the object the residual function worked on = `Fit.model`
+  trace : List (List (String × α))   -- the updates the residual function was called with, in order
+
+/-- `fit.steady_state` / `time_course` / `protocol_time_course` with the scripted minimiser, end to end:
+deepcopy or not, name routing, every residual evaluation updating the working model, the wrapper around the
+minimiser's result and — with `setsBest` (read from the source by the translator) — `_set_best(model, parameters)`.
+`residual` stands for simulate-and-compare on the updated model. -/
+def fitDriver {α : Type} [LE α] [DecidableLE α] (setsBest asDeepcopy : Bool) (y0 : Option (List (String × α)))
+    (model : ModelVals α) (p0 : List (String × α)) (cands : List (List α)) (fail : Bool)
+    (residual : List (String × α) → α) : DriverOut α :=
+  let names := p0.map (·.1)
+  let (pN, vN) := routeNames model names
+  let update := fun (m : ModelVals α) u => (applyUpdates y0 pN vN m u).getD m
+  let trace := scriptedTrace names cands (p0.map (·.2))
+  let env := (FitEnv.start asDeepcopy model).run update trace
+  let minimize : (List α → α) → List α → Option (List α × α) :=
+    if fail then fun _ _ => none else scriptedMinimise cands
+  match fitWrap (localScipyCall minimize) residual p0 with
+  | some fit =>
+    let env' := if setsBest then
+        FitEnv.evalResidual (fun m u => (applyUpdates none pN vN m u).getD m) env fit.bestPars
+      else env
+    ⟨some fit, env'.caller, env'.work, trace⟩
+  | none => ⟨none, env.caller, env.work, trace⟩
+
+/-- `EnsembleFit([fit for ... if not isinstance(fit := i[1].value, Exception)])`: failures are dropped, order kept -/
+def ensembleFits {α : Type} (fits : List (Option (Fit α))) : List (Fit α) := fits.filterMap id
+
+/-- `EnsembleFit.get_best_fit` = `min(self.fits, key=lambda x: x.loss)`: the first fit with the least loss; `none` =
+the ValueError of `min` on an empty list -/
+def getBestFit {α : Type} [LE α] [DecidableLE α] : List (Fit α) → Option (Fit α)
+  | [] => none
+  | f :: rest => some (rest.foldl (fun best x => if best.loss ≤ x.loss then best else x) f)
 
 end Mxl.C20
